@@ -306,12 +306,17 @@ def random_script(r, nacts, params, stateful_eq=True, max_draws=6):
             if not st.vs:
                 continue
             l = any_v()
-            if r.chance(1, 2):
+            how = r.choice(["vc", "va", "vc", "va", "vx", "vy"])
+            if how in ("vc", "vx"):
                 kk = r.choice([x for x in range(VAR_SLOTS) if x != l])
-                acts.append(f"vc:{kk}:{l}")
+            elif how == "va":
+                kk = any_v()                      # kk == l: self-assignment
             else:
-                kk = any_v()
-                acts.append(f"va:{kk}:{l}")
+                cand = [x for x in sorted(st.vs) if x != l]
+                if not cand:
+                    continue
+                kk = r.choice(cand)
+            acts.append(f"{how}:{kk}:{l}")
             st.vs[kk] = True
         elif k < 96:
             if not st.vs:
@@ -355,12 +360,15 @@ def systematic_scripts(iv1, iv2):
             out.append([f"n:0:{a}:{b}", f"d:0:{k0}", f"{mk}:0:0", "w:0:2", "d:0:2", "w:0:1", "g:1", "w:0:1", "d:0:1", "e:0:0"])
     out.append([f"vp:0:{a}:{b}", "w:0:3", f"n:0:{a}:{b}", "d:0:3", "vp:1:{0}:{1}".format(c, d), "w:1:2", "w:0:1"])
     # copies of variates continue from the state of the original; both keep using the one generator
-    for how in ("vc", "va"):
+    for how in ("vc", "va", "vx", "vy"):
         for k0 in (0, 1, 2):
             pre = [f"n:0:{a}:{b}", "v:0:0", f"w:0:{k0}"]
-            if how == "va":
+            if how in ("va", "vy"):
                 pre += [f"vp:1:{c}:{d}", "w:1:1"]
-            out.append(pre + [f"{how}:1:0", "w:1:2", "w:0:2", "w:1:1", "g:1", "w:0:1"])
+            if how in ("vx", "vy"):             # the moved-from variate is only assigned to afterwards
+                out.append(pre + [f"{how}:1:0", "w:1:2", f"vp:0:{c}:{d}", "w:0:1", "w:1:1", "g:1", "va:0:1", "w:0:1", "w:1:1"])
+            else:
+                out.append(pre + [f"{how}:1:0", "w:1:2", "w:0:2", "w:1:1", "g:1", "w:0:1"])
     for k0 in (0, 1, 3):
         out.append([f"n:0:{a}:{b}", "v:0:0", f"w:0:{k0}", "va:0:0", "w:0:2"])
     # three objects drawn from round-robin: one generator, three independent states
@@ -401,6 +409,7 @@ def container_scripts_systematic():
             for k0 in (0, 1, 2):
                 out.append((cm, el, ["f:0", f"d:0:{k0}", "cc:1:0", "d:1:3", "d:0:3", "ca:0:0", "d:0:2"]))
                 out.append((cm, el, ["f:0", "f:1", f"d:0:{k0}", "d:1:1", "ca:1:0", "d:1:3", "d:0:3"]))
+                out.append((cm, el, ["f:0", f"d:0:{k0}", "mc:1:0", "d:1:3", "f:0", "d:0:1", "ma:0:1", "d:0:2"]))
             # the wrapper sees later writes to the container (it holds a reference, not a copy)
             acts = ["f:0", "d:0:2"] + [f"w:{k}:{-(k + 1)}" for k in range(size)] + ["d:0:8"]
             out.append((cm, el, acts))
@@ -430,12 +439,17 @@ def random_cscript(r, size, mutable, nacts):
             acts.append(f"d:{r.choice(sorted(filled))}:{r.range(1, 5)}")
         elif k < 70:
             j = r.choice(sorted(filled))
-            if r.chance(1, 2):
+            how = r.choice(["cc", "ca", "cc", "ca", "mc", "ma"])
+            if how in ("cc", "mc"):
                 i = r.choice([x for x in range(3) if x != j])
-                acts.append(f"cc:{i}:{j}")
-            else:
+            elif how == "ca":
                 i = r.choice(sorted(filled))
-                acts.append(f"ca:{i}:{j}")
+            else:
+                cand = [x for x in sorted(filled) if x != j]
+                if not cand:
+                    continue
+                i = r.choice(cand)
+            acts.append(f"{how}:{i}:{j}")
             filled.add(i)
         elif k < 85:
             acts.append(f"w:{r.below(size)}:{r.range(-999, 999)}")
@@ -853,6 +867,54 @@ def refine(op):
     if kind in ("XE", "XC"):
         return [" ".join(t[:-1] + [str(k)]) for k in _cuts(int(t[-1]))] if t[-1].isdigit() else None
     return None
+
+
+# ---------------------------------------------------------------- members that cannot be instantiated
+
+PROBES = {
+    # name: (source, must it be rejected?, fragment of the path the first error has to come from)
+    "Parameters::convert_to (uniform_int)": ("c20_probe_ill_convert_to.cpp", True, "parameters/uniform_int_impl.hpp"),
+    "Parameters::convert_to (uniform_real, normal)": ("c20_probe_ill_convert_to_real.cpp", True, "parameters/"),
+    "basic::param() const": ("c20_probe_ill_param.cpp", True, "distribution/basic_impl.hpp"),
+    "basic::operator()(Rng &, param_type const &)": ("c20_probe_ill_call_param.cpp", True, "distribution/basic_impl.hpp"),
+    "operator>>(istream &, basic &)": ("c20_probe_ill_extract.cpp", True, ""),
+    "operator<<(ostream &, basic const &) [control]": ("c20_probe_ok_insert.cpp", False, ""),
+}
+
+
+def extra_checks(binp, rng, tier, ev):
+    """Compile the probes (-fsyntax-only, in parallel).  The listed members are ill-formed on the pinned tree and therefore
+    outside the tie; if one of them starts to compile it exists now and nothing checks it: reported, so that harness and
+    model get extended."""
+    import subprocess
+    from concurrent.futures import ThreadPoolExecutor
+    from vlib import harness as hb
+
+    def one(item):
+        name, (src, must_fail, where) = item
+        cmd = [hb.CXX] + hb.BASE_FLAGS + hb.include_flags() + ["-fsyntax-only", os.path.join(_paths.ROOT, "harness", src)]
+        p = subprocess.run(cmd, capture_output=True, text=True)
+        first = next((l for l in p.stderr.splitlines() if " error" in l), "")
+        return name, src, must_fail, where, p.returncode, first
+
+    with ThreadPoolExecutor(max_workers=6) as ex:
+        res = list(ex.map(one, PROBES.items()))
+    out = []
+    table = {}
+    for name, src, must_fail, where, rc, first in res:
+        table[name] = "rejected: " + first.split("error:")[-1].strip()[:160] if rc != 0 else "compiles"
+        if must_fail and rc == 0:
+            out.append({"kind": "broken-correspondence", "property": ID,
+                        "what": f"{name} can be instantiated now (harness/{src} compiles) but is not tied: extend harness, model and notes/C20.md"})
+        elif must_fail and where and where not in first:
+            out.append({"kind": "broken-correspondence", "property": ID,
+                        "what": f"probe harness/{src} is rejected for another reason than the recorded one: {first[:300]}"})
+        elif not must_fail and rc != 0:
+            out.append({"kind": "broken-correspondence", "property": ID,
+                        "what": f"control probe harness/{src} does not compile: {first[:300]}"})
+    if isinstance(ev, dict):
+        ev.setdefault("coverage", {})["uninstantiable_members"] = table
+    return out
 
 
 MANIFEST = {
